@@ -547,11 +547,16 @@ def fam_einsum(d, seed):
     kinds = d['kinds']    # per operand 'r' or 'c'
     vals_ = [_ein_operand(c, 30 + i, seed, kinds[i] == 'c') for i, c in enumerate(ops)]
 
+    same = d.get('same')     # the same Signal object used for the first and the last operand (b^T A b, v.v)
+
     def make():
         s = [pym.Signal(f'a{i}', v.copy()) for i, v in enumerate(vals_)]
+        if same:
+            m = pym.EinSum(s[:-1] + [s[0]], pym.Signal('o'), expression=expr)
+            return m, s[:-1], m.sig_out
         m = pym.EinSum(s, pym.Signal('o'), expression=expr)
         return m, s, m.sig_out
-    return Spec('EinSum', make, [Inp(v) for v in vals_], linear=False, h=1e-3)
+    return Spec('EinSum', make, [Inp(v) for v in (vals_[:-1] if same else vals_)], linear=False, h=1e-3)
 
 
 def fam_concat(d, seed):
@@ -746,6 +751,9 @@ def lattice(tier, seed):
     for ex, (_, ops) in EINSUM.items():
         for kinds in itertools.product('rc', repeat=len(ops)):
             yield dict(fam='EinSum', expr=ex, kinds=list(kinds))
+    for ex in ('quad', 'dot', 'elemmul'):
+        for kinds in itertools.product('rc', repeat=len(EINSUM[ex][1]) - 1):
+            yield dict(fam='EinSum', expr=ex, kinds=list(kinds) + [kinds[0]], same=True)
     for shapes in (['py', 'py'], ['vec', 'py'], ['py', 'vec', 'np0'], ['vec', 'vec'], ['np0', 'vec']):
         yield dict(fam='ConcatSignal', shapes=shapes)
     # --- aggregation / scaling
